@@ -29,6 +29,7 @@ package checks
 // the run inconclusive); never a violation.
 
 import (
+	"bufio"
 	"bytes"
 	"context"
 	"crypto/sha256"
@@ -1285,6 +1286,20 @@ func (x *c38Exec) judge2(rt *c38Route, class, mdesc string, q c38Req, resp *c38R
 	if i := strings.Index(mdesc, c38MustRejectMark); i >= 0 && resp.Status < 400 && strings.HasSuffix(rt.Name, "/transactions") && rt.Method() == "POST" {
 		return c38Verdict{Kind: "invalid-accepted", Sig: fmt.Sprintf("%s%d:accepted-%s", prefix, resp.Status, strings.ReplaceAll(strings.Trim(mdesc[i+len(c38MustRejectMark):], "]"), " ", "-"))}
 	}
+	// A script-stream bulk is read line by line through a bufio.Scanner: a line longer than the
+	// scanner's buffer cannot be read, so no element may be built from anything at or after it. Every
+	// successful element consumed one `//end` line (a clean end of stream is impossible once a line
+	// is unreadable), hence successes <= `//end` lines before the first unreadable line: more means a
+	// script the server failed to read in full was executed (the request had an effect it was never sent).
+	if strings.HasSuffix(rt.Name, "/_bulk") && strings.EqualFold(q.header("Content-Type"), c38CTScript) {
+		if bound, unreadable := c38ScriptStreamBound(q.Body); unreadable {
+			x.agg.count("script_stream_unreadable_line_requests", 1)
+			ok, _, parsed := c38BulkResults(resp.Body)
+			if parsed && ok > bound {
+				return c38Verdict{Kind: "state-changed", Sig: fmt.Sprintf("C38/%s:any:%d:script-stream-executed-a-script-it-could-not-read", rt.Name, resp.Status)}
+			}
+		}
+	}
 	if resp.Status >= 400 && before != after {
 		code := c38ErrCode(resp.Body)
 		what := "state-changed"
@@ -1873,4 +1888,24 @@ func c38Bucket(n int) int {
 		return 3
 	}
 	return n
+}
+
+// c38ScriptStreamBound: for a script-stream body with a line longer than bufio.MaxScanTokenSize
+// (definitely unreadable by the default bufio.Scanner), the number of `//end` lines before it.
+func c38ScriptStreamBound(body []byte) (bound int, unreadable bool) {
+	for len(body) > 0 {
+		line := body
+		if i := bytes.IndexByte(body, '\n'); i >= 0 {
+			line, body = body[:i], body[i+1:]
+		} else {
+			body = nil
+		}
+		if len(line) > bufio.MaxScanTokenSize {
+			return bound, true
+		}
+		if string(bytes.TrimSpace(line)) == "//end" {
+			bound++
+		}
+	}
+	return 0, false
 }
